@@ -162,6 +162,9 @@ func init() {
 			return true
 		}
 		decls := append([]string{"init", "callSite" + string(rune('A'+site))}, scen.Pool[site]...)
+		if site == 0 {
+			decls = append(decls, "Test0Warm")
+		}
 		for _, d := range decls {
 			if re.MatchString(d) {
 				return true
